@@ -235,3 +235,14 @@ pub proof fn lemma_zslabs(d: int, t: int, k: int)
         assert(k - 1 <= q) by (nonlinear_arith) requires (k - 1) * t < q * t + d % t, d % t < t, t >= 1;
     }
 }
+
+// ---------- Worker::new / Scratch::new
+/// R-vecmacro: `vec![v; n]`
+#[verifier::external_body]
+pub fn vec_f32(v: f32, n: usize) -> (r: Vec<f32>) ensures r@.len() == n { vec![v; n] }
+#[verifier::external_body]
+pub fn vec_grad(v: Grad, n: usize) -> (r: Vec<Grad>) ensures r@.len() == n { vec![v; n] }
+#[verifier::external_body]
+pub fn vec_usize(v: usize, n: usize) -> (r: Vec<usize>) ensures r@.len() == n { vec![v; n] }
+/// R-from: `Grad::from(c)` (From<f32> for Grad: the constant with zero derivatives)
+pub fn grad_from(c: f32) -> (r: Grad) ensures r == (Grad { v: c, dx: 0.0f32, dy: 0.0f32, dz: 0.0f32 }) { Grad { v: c, dx: 0.0, dy: 0.0, dz: 0.0 } }
